@@ -56,7 +56,7 @@ impl Check for C11 {
         let mut cases: Vec<Case> = vec![];
         let mut n_defined = 0u64;
         let mut n_error = 0u64;
-        let alphabet: Vec<char> = "abcdefgh".chars().collect();
+        let alphabet: Vec<char> = "abcdefghijkl".chars().collect();
 
         // ----- lists -----
         for n in 0..=max_list {
